@@ -24,10 +24,12 @@ from crosshair.libimpl.builtinslib import AnySymbolicStr
 from crosshair.libimpl.builtinslib import LazyIntSymbolicStr
 from crosshair.tracers import NoTracing
 from crosshair.tracers import ResumedTracing  # noqa: F401
+from crosshair.tracers import is_tracing
 
 import chameleon.tokenize as _tk
 
 _RealToken = _tk.Token
+_orig_str_hash = str.__hash__
 
 GRAFTED = ('__getitem__', '__add__', '__eq__', '__hash__', 'replace', 'split',
            'strip', 'lstrip', 'rstrip', 'location')
@@ -40,9 +42,10 @@ class SymToken(LazyIntSymbolicStr):
         return _RealToken
 
     def __ch_realize__(self):
+        # only the token text is realised; ``source`` stays whatever it is (possibly symbolic), so
+        # that hashing an attribute name does not concretise unrelated characters of the document
         s = LazyIntSymbolicStr.__ch_realize__(self)
-        return _RealToken(s, realize(self.pos), deep_realize(self.source),
-                          deep_realize(self.filename))
+        return _RealToken(s, realize(self.pos), self.source, realize(self.filename))
 
 
 def graft():
@@ -50,6 +53,25 @@ def graft():
     for _name in GRAFTED:
         if _name in _RealToken.__dict__:
             setattr(SymToken, _name, _RealToken.__dict__[_name])
+    real_hash = _RealToken.__dict__.get('__hash__')
+    real_eq = _RealToken.__dict__.get('__eq__')
+
+    def __hash__(self):
+        if not is_tracing():   # called from CrossHair internals / C code with tracing off
+            return _orig_str_hash(LazyIntSymbolicStr.__ch_realize__(self))
+        return real_hash(self)
+
+    def __eq__(self, other):
+        if not is_tracing():
+            o = realize(other)
+            if not isinstance(o, str):
+                return NotImplemented
+            return str.__eq__(LazyIntSymbolicStr.__ch_realize__(self), str(o))
+        return real_eq(self, other)
+    if real_hash is not None:
+        SymToken.__hash__ = __hash__
+    if real_eq is not None:
+        SymToken.__eq__ = __eq__
 
 
 graft()
@@ -96,7 +118,15 @@ for _n in ('__getitem__', '__add__', '__eq__', 'split', 'replace', 'lstrip', 'rs
 
 
 def _str_hash(self):
-    return hash(realize(self))
+    # hashing is a C boundary: realise (forks on the concrete value if characters are symbolic)
+    with NoTracing():
+        if isinstance(self, LazyIntSymbolicStr):
+            r = LazyIntSymbolicStr.__ch_realize__(self)
+        elif isinstance(self, AnySymbolicStr):
+            r = realize(self)
+        else:
+            r = self
+        return _orig_str_hash(r)
 
 
 _core._PATCH_REGISTRATIONS[str.__hash__] = _str_hash
@@ -169,3 +199,112 @@ _relib._Match.groupdict = _m_groupdict
 _relib._Match.span = _m_span
 _relib._Match.start = _m_start
 _relib._Match.end = _m_end
+
+
+# ---- back-references in CrossHair's symbolic regex matcher --------------------------------------
+# relib raises ReUnhandled(GROUPREF) and then *realises* the subject string (for a SymToken that
+# includes its whole source), so every quoted attribute (``(?P<quote>['"])...(?P=quote)``) would be
+# explored concretely.  The matcher is continuation based: when the end-of-group marker of group g
+# is processed going forward, its span (begin, offset) is known, so every ``GROUPREF g`` in the
+# remaining pattern is resolved to that span and matched character by character.
+try:
+    import re._constants as _sre_c
+except ImportError:  # pragma: no cover
+    import sre_constants as _sre_c
+
+_GROUPREF_RESOLVED = object()
+_orig_imp = _relib._internal_match_patterns
+
+
+def _resolve(items, group_num, span):
+    out = []
+    changed = False
+    for item in items:
+        op, arg = item
+        if op is _sre_c.GROUPREF and arg == group_num:
+            out.append((_GROUPREF_RESOLVED, span))
+            changed = True
+        elif op in (_sre_c.MIN_REPEAT, _sre_c.MAX_REPEAT):
+            lo, hi, sub = arg
+            new, ch = _resolve(list(sub), group_num, span)
+            if ch:
+                out.append((op, (lo, hi, new)))
+                changed = True
+            else:
+                out.append(item)
+        elif op is _sre_c.BRANCH and arg[0] is None:
+            news = []
+            anych = False
+            for b in arg[1]:
+                nb, ch = _resolve(list(b), group_num, span)
+                news.append(nb if ch else b)
+                anych = anych or ch
+            if anych:
+                out.append((op, (None, news)))
+                changed = True
+            else:
+                out.append(item)
+        elif op is _sre_c.SUBPATTERN:
+            g, a, b, sub = arg
+            new, ch = _resolve(list(sub), group_num, span)
+            if ch:
+                out.append((op, (g, a, b, new)))
+                changed = True
+            else:
+                out.append(item)
+        elif op in (_sre_c.ASSERT, _sre_c.ASSERT_NOT):
+            d, sub = arg
+            new, ch = _resolve(list(sub), group_num, span)
+            if ch and d == 1:
+                out.append((op, (d, new)))
+                changed = True
+            else:
+                out.append(item)
+        else:
+            out.append(item)
+    return out, changed
+
+
+def _imp(top_patterns, flags, string, offset, allow_empty=True, ord=ord, chr=chr):
+    if len(top_patterns) > 0:
+        op, arg = top_patterns[0]
+        if op is _relib._END_GROUP_MARKER:
+            group_num, begin = arg
+            rest, changed = _resolve(list(top_patterns)[1:], group_num, (begin, offset))
+            if changed:
+                top_patterns = [top_patterns[0]] + rest
+        elif op is _GROUPREF_RESOLVED:
+            begin, end = arg
+            space = _relib.context_statespace()
+            n = realize(end) - realize(begin)
+            begin = realize(begin)
+            offset = realize(offset)
+            with ResumedTracing():
+                strlen = len(string)
+            if offset + n > realize(strlen):
+                return None
+            for i in range(n):
+                with ResumedTracing():
+                    a = ord(string[begin + i])
+                    b = ord(string[offset + i])
+                if isinstance(a, int) and isinstance(b, int):
+                    if a != b:
+                        return None
+                    continue
+                from crosshair.libimpl.builtinslib import SymbolicInt
+                ea = SymbolicInt._coerce_to_smt_sort(a)
+                eb = SymbolicInt._coerce_to_smt_sort(b)
+                if not space.smt_fork(ea == eb):
+                    return None
+            prefix = _relib._MatchPart([(offset, offset + n)])
+            sub_allow_empty = allow_empty if n == 0 else True
+            suffix = _relib._internal_match_patterns(
+                list(top_patterns)[1:], flags, string, offset + n, sub_allow_empty,
+                ord=ord, chr=chr)
+            if suffix is None:
+                return None
+            return prefix._add_match(suffix)
+    return _orig_imp(top_patterns, flags, string, offset, allow_empty, ord=ord, chr=chr)
+
+
+_relib._internal_match_patterns = _imp
